@@ -35,7 +35,7 @@
     What is missing for the full statement is in the code, not in the proof. *)
 From Coq Require Import List Bool NArith ZArith.
 Import ListNotations.
-From Ont Require Import Gen.Thresholds Gen.VbftIntake Model.VbftPool Model.VbftPoolSpec Model.Vbft Model.VbftSpec
+From Ont Require Import Gen.Thresholds Gen.VbftIntake Gen.VbftMarks Model.VbftPool Model.VbftPoolSpec Model.Vbft Model.VbftSpec
   Proofs.C31 Proofs.C34.
 Local Open Scope N_scope.
 
@@ -87,7 +87,7 @@ Print Assumptions c34_one_commit_per_height.
 Theorem c34_one_endorsement_per_flag : forall P cfg a e,
   reachable P cfg -> (length (endorsements e (node_of cfg a)) <= 1)%nat.
 Proof.
-  intros P cfg a e H. destruct (J_reachable P cfg H a) as (_ & _ & _ & H1 & _ & H2).
+  intros P cfg a e H. destruct (J_reachable P cfg H a) as (_ & _ & _ & _ & H1 & _ & H2).
   destruct e; assumption.
 Qed.
 Print Assumptions c34_one_endorsement_per_flag.
@@ -123,3 +123,44 @@ Proof.
   repeat split; try assumption.
   apply c34_safety_partial; [apply wf_P4; cbn; auto|exact R|exact Hh].
 Qed.
+
+(** * The commit mark (setProposalCommitted): "the first commit of the height wins" is decided in one
+    place, under the pool's write lock — Server.commitBlock's own pre-check is made under a read
+    lock that is released before signing, and commitBlock is reached from three loops. *)
+
+(** what the current source has (re-read from the AST on every run, Gen/VbftMarks.v): the test
+    `CommittedProposal != nil || CommittedEmptyProposal != nil -> error` before any assignment, the
+    write lock, commitBlock's pre-check, and that the hook's copy of the rest of commitBlock is
+    the rest of commitBlock *)
+Theorem c34_commit_guard_inventory :
+  set_committed_cross_kind_guard = true /\ set_committed_takes_write_lock = true /\
+  commit_block_prechecks_committed = true /\ commit_block_tail_as_hooked = true.
+Proof. exact guard_inventory. Qed.
+Print Assumptions c34_commit_guard_inventory.
+
+(** once a commit mark is set, every further setProposalCommitted fails, whatever proposer and kind *)
+Theorem c34_first_commit_wins : forall nd p k e,
+  committed_for_block nd = true -> set_proposal_committed nd p k e = None.
+Proof. exact first_commit_wins. Qed.
+Print Assumptions c34_first_commit_wins.
+
+(** ... and a successful one starts from no mark and sets exactly one *)
+Theorem c34_commit_mark_set : forall nd p k e nd',
+  set_proposal_committed nd p k e = Some nd' ->
+  n_committed nd = (None, None) /\ n_committed nd' = (if e then (None, Some (p, k)) else (Some (p, k), None)).
+Proof. exact commit_mark_set. Qed.
+Print Assumptions c34_commit_mark_set.
+
+(** at most one commit mark after every sequence of newBlockProposal / setProposalEndorsed /
+    setProposalCommitted calls on a candidate *)
+Theorem c34_marks_sequences_one_commit_mark : forall ops,
+  one_commit_mark (fst (run_marks node0 ops)) = true.
+Proof. intro ops. apply run_marks_one. reflexivity. Qed.
+Print Assumptions c34_marks_sequences_one_commit_mark.
+
+(** ... and in every reachable configuration, also with commitBlock's pre-check and the rest of
+    commitBlock interleaved with other loops ([LCommitLate]) *)
+Theorem c34_one_commit_mark_per_height : forall P cfg a,
+  reachable P cfg -> one_commit_mark (node_of cfg a) = true.
+Proof. intros P cfg a H. exact (one_mark_reachable P cfg a H). Qed.
+Print Assumptions c34_one_commit_mark_per_height.
